@@ -18,8 +18,12 @@ pub struct TreeDump {
 
 /// dump the subtree of `node`; byte offsets are rebased to the start of `node`
 pub fn dump_tree(node: &N) -> TreeDump {
+  dump_tree_at(node, node.get_ts_node().start_byte() as usize)
+}
+
+/// dump with byte offsets relative to `base` (0 = absolute offsets of the document)
+pub fn dump_tree_at(node: &N, base: usize) -> TreeDump {
   let ts = node.get_ts_node();
-  let base = ts.start_byte() as usize;
   let mut ids = HashMap::new();
   let mut counter = 0usize;
   let mut cursor = ts.walk();
